@@ -40,13 +40,15 @@ Section CumSum.
   (* ------------------------------------------------------------------ lemmas *)
   Lemma frames_aux_spec pre l a x b :
     In (a, x, b) (frames_aux pre l) -> pre ++ l = a ++ x :: b.
-  Proof.
-    revert pre. induction l as [|y t IH]; intros pre; cbn; [tauto|]. intros [H|H].
-    - inversion H; subst. reflexivity.
-    - apply IH in H. rewrite <- H, <- app_assoc. reflexivity.
+  Proof using.
+    revert pre. induction l as [|y t IH]; intros pre H; cbn [frames_aux In] in H.
+    - destruct H.
+    - destruct H as [H|H].
+      + injection H as Ha Hx Hb. rewrite Ha, Hx, Hb. reflexivity.
+      + apply IH in H. rewrite <- H, <- app_assoc. reflexivity.
   Qed.
   Lemma frames_spec l a x b : In (a, x, b) (frames l) -> l = a ++ x :: b.
-  Proof. intros H. apply frames_aux_spec in H. exact H. Qed.
+  Proof using. intros H. exact (frames_aux_spec [] l a x b H). Qed.
 
   Lemma frames_aux_rows pre l : map (fun fr => snd (fst fr)) (frames_aux pre l) = l.
   Proof. revert pre. induction l as [|y t IH]; intros pre; cbn; [reflexivity|]. rewrite IH. reflexivity. Qed.
